@@ -30,6 +30,21 @@ def Chunk.ev : Chunk → Ev
 def chunksText (cs : List Chunk) : Txt := (cs.map Chunk.txt).flatten
 def chunksEvs (cs : List Chunk) : List Ev := cs.map Chunk.ev
 
+/-! ### writing character data as CDATA sections -/
+
+/-- does the text end with `]]` -/
+def endsBrackets (cur : Txt) : Bool := cur.drop (cur.length - 2) = [93, 93]
+
+/-- the writer's cut: a new section starts before every `>` that follows `]]`, so that no section contains
+    the terminator `]]>` (`cur` = the section being filled) -/
+def cdataSplitAux : Txt → Txt → List Txt
+  | [], cur => if cur = [] then [] else [cur]
+  | c :: r, cur =>
+    if c = 62 ∧ endsBrackets cur = true then cur :: cdataSplitAux r [c] else cdataSplitAux r (cur ++ [c])
+
+/-- the CDATA sections a text is written as -/
+def cdataSplit (s : Txt) : List Txt := cdataSplitAux s []
+
 /-! ### xlsx string items (`CT_Rst`: `<si>` of the shared string table, `<is>` of an inline string) -/
 
 /-- a `<t>` element: its prefix, attributes (`xml:space="preserve"`) and character data -/
